@@ -189,10 +189,10 @@ def run(prog, tier) -> Result:
     TEXTS = ["5", "-5", "+7", "1.5", ".5", "5.", "1e3", "2.5E-3", "1E+2", "1/3", "-2/7", " 12", "0", "0.00", "-0"]
     SYMS = [None, "m", "m/s", "fl oz"]
 
-    def setup_concrete(text, sym):
+    def setup_concrete(text, sym, form="{t} {s}"):
         def setup(c):
             c.new_type("T", **FLAVORS["ref"])
-            full = text if sym is None else f"{text} {sym}"
+            full = text if sym is None else form.format(t=text, s=sym)
             cls = c.cls("T") if sym is None else ClsV(c.m.special_type("Quantity"))
             return [cls, StrV(full)], {}
         return setup
@@ -232,6 +232,13 @@ def run(prog, tier) -> Result:
     for text in TEXTS:
         for sym in (SYMS if text in ("5", "1e3", "1/3", "-5", "1.5") else SYMS[:2]):
             cr.run("R18.4c", new, f"text {(text if sym is None else text + ' ' + sym)!r}", setup_concrete(text, sym),
+                   judge_concrete(text, sym), inline_ctor=True)
+
+    # blanks around the two pieces belong to neither: the amount ends at the first blank, the symbol is what remains
+    # without the blanks around it
+    for form in ("{t}  {s}", "{t} {s} ", "  {t} {s}", "{t}   {s}  "):
+        for text, sym in (("5", "m"), ("1.5", "fl oz")):
+            cr.run("R18.4c", new, f"text {form.format(t=text, s=sym)!r}", setup_concrete(text, sym, form),
                    judge_concrete(text, sym), inline_ctor=True)
 
     # ---- R18.3 text template: writer / reader agreement, decided on the evaluated text (a template of literal
@@ -321,5 +328,5 @@ def run(prog, tier) -> Result:
     res.require("R18.3", 5)
     res.require("R18.4i", 1)
     res.require("R18.4", 5)
-    res.require("R18.4c", 30)
+    res.require("R18.4c", 38)
     return res
